@@ -76,6 +76,16 @@ def use_repo():
     import bempp_cl.api as api
 
     api.enable_console_logging  # touch
+    # the library creates an (empty) scratch directory under the system temp directory at import and never removes it: tidy up at exit
+    try:
+        import atexit
+        import shutil
+
+        tmp_path = getattr(api, "TMP_PATH", None)
+        if tmp_path and os.path.basename(tmp_path).startswith("tmp") and os.path.dirname(tmp_path) in ("/tmp", os.environ.get("TMPDIR", "/tmp").rstrip("/")):
+            atexit.register(lambda: shutil.rmtree(tmp_path, ignore_errors=True))
+    except Exception:  # pragma: no cover
+        pass
     # the meshes of the universes are tiny: many threads only add barrier latency (badly so on a loaded machine)
     try:
         import numba
@@ -159,7 +169,7 @@ def run_tlc(
     """
     meta = tempfile.mkdtemp(prefix="tlc_meta_")
     cfg = cfg or (module + ".cfg")
-    java = ["java", "-XX:+UseParallelGC", "-Xmx" + heap]
+    java = ["java", "-XX:+UseParallelGC", "-Xmx" + heap, "-Djava.io.tmpdir=" + meta]     # TLC's own scratch directories go into the metadir (removed below)
     if dfs:
         java.append("-Dtlc2.tool.queue.IStateQueue=StateDeque")
     cp = TLA_CP
